@@ -305,7 +305,7 @@ impl World {
             "nest" => {
                 let a = cmd["a"].as_str().unwrap().to_string();
                 if let Some(slot) = self.actors.get(&a) {
-                    if !matches!(slot.sh.parked(), "Start" | "Handler" | "Stop") {
+                    if !matches!(slot.sh.parked(), "Start" | "Handler" | "Stop" | "Run") {
                         self.inappl("nest: no hook parked");
                     } else {
                     slot.sh.give(Dir::Nest {
